@@ -1,3 +1,3 @@
 SPECIFICATION Spec
-INVARIANT MergeLaws InLaws SpellingIrrelevant ExportCases
+INVARIANT MergeLaws InLaws SubstringLaw SpellingIrrelevant ExportCases
 CHECK_DEADLOCK FALSE
